@@ -1,4 +1,251 @@
-import DDV.Gen.Lemmas.Tree
+/-
+  C11 — Field-layout validation accepts exactly the well-formed layouts.
+
+  The three layout passes are `byte_order_specified`, `bool_fields_checked` and
+  `bit_ranges_validated`; `layoutPasses` is their composition in the order of `run_passes`
+  (the passes between them do not touch ranges, sizes, byte orders or overlap flags).
+-/
+import DDV.Gen.Lemmas.Layout
+
 namespace DDV.Props.C11
-theorem placeholder : True := trivial
+open DDV.Gen
+open DDV.Bits (ByteOrder)
+set_option linter.unusedVariables false
+
+/-! ### The property's notion of a well-formed layout, written from its text -/
+
+/-- The range a field addresses: a `bool` given as a zero-width range means its single bit. -/
+def range (f : Field) : Nat × Nat :=
+  if f.base = .bool ∧ f.start = f.stop then (f.start, f.stop + 1) else (f.start, f.stop)
+
+/-- "every field has a non-empty bit range inside the declared size, bool fields are exactly one
+    bit and carry no conversion" -/
+def FieldOk (size : Nat) (f : Field) : Prop :=
+  (range f).1 < (range f).2 ∧ (range f).2 ≤ size ∧
+  (f.base = .bool → (range f).2 - (range f).1 = 1 ∧ f.conv = none)
+
+def Disjoint (f g : Field) : Prop := (range f).2 ≤ (range g).1 ∨ (range g).2 ≤ (range f).1
+
+/-- "no two fields of one field set overlap unless bit overlap is allowed on the object" -/
+def SetOk (allowOverlap : Bool) (size : Nat) (fs : List Field) : Prop :=
+  (∀ f ∈ fs, FieldOk size f) ∧ (allowOverlap = false → fs.Pairwise Disjoint)
+
+/-- "a byte order is known (on the object or globally) whenever a field set is larger than 8 bits" -/
+def ObjOk (globalByteOrder : Option ByteOrder) : Object → Prop
+  | .register r =>
+    SetOk r.allowBitOverlap r.sizeBits r.fields ∧
+    (r.sizeBits > 8 → r.byteOrder.isSome ∨ globalByteOrder.isSome)
+  | .command c =>
+    SetOk c.allowBitOverlap c.sizeBitsIn c.inFields ∧ SetOk c.allowBitOverlap c.sizeBitsOut c.outFields ∧
+    ((c.sizeBitsIn > 8 ∨ c.sizeBitsOut > 8) → c.byteOrder.isSome ∨ globalByteOrder.isSome)
+  | _ => True
+
+def WellFormedLayout (d : Device) : Prop :=
+  AllLeaves (ObjOk d.config.defaultByteOrder) d.objects
+
+/-! ### The code -/
+
+def layoutPasses (d : Device) : M Device :=
+  match byteOrderSpecified d with
+  | .error e => .error e
+  | .ok d1 =>
+    match boolFieldsChecked d1 with
+    | .error e => .error e
+    | .ok d2 => bitRangesValidated d2
+
+/-! ### Bridging the spec's `range` and the pass's normalisation -/
+
+theorem range_eq_norm (f : Field) : range f = ((boolNorm f).start, (boolNorm f).stop) := by
+  unfold range boolNorm
+  by_cases hb : f.base = .bool
+  · have hbeq : (f.base == BaseType.bool) = true := by rw [hb]; rfl
+    by_cases hs : f.start = f.stop
+    · simp [hb, hs, hbeq]
+    · simp [hb, hs, hbeq]
+  · have hbeq : (f.base == BaseType.bool) = false := by cases h : f.base <;> simp_all
+    simp [hb, hbeq]
+
+theorem setOk_iff (allow : Bool) (size : Nat) (fs : List Field) :
+    SetOk allow size fs ↔ (∀ f ∈ fs, BoolOk f) ∧ SetOkNorm allow size (fs.map boolNorm) := by
+  unfold SetOk SetOkNorm FieldOk BoolOk Disjoint
+  simp only [range_eq_norm, List.mem_map, forall_exists_index, and_imp, forall_apply_eq_imp_iff₂,
+    List.pairwise_map, DDV.Gen.Disj]
+  constructor
+  · intro ⟨h1, h2⟩
+    exact ⟨fun f hf => (h1 f hf).2.2, fun f hf => ⟨(h1 f hf).1, (h1 f hf).2.1⟩, h2⟩
+  · intro ⟨h1, h2, h3⟩
+    exact ⟨fun f hf => ⟨(h2 f hf).1, (h2 f hf).2, h1 f hf⟩, h3⟩
+
+/-- Per object: the three callbacks succeed one after the other iff the object is well formed. -/
+theorem obj_accept_iff (g : Option ByteOrder) (o : Object) :
+    ObjOk g o ↔
+      ByteOrderOk g o ∧ BoolObjOk (fillByteOrder g o) ∧ RangesObjOk (normObj (fillByteOrder g o)) := by
+  cases o with
+  | register r =>
+    unfold ObjOk ByteOrderOk fillByteOrder
+    by_cases hb : r.byteOrder.isNone = true <;>
+      simp only [hb, if_true, if_false, BoolObjOk, normObj, RangesObjOk, setOk_iff] <;>
+      constructor <;> (intro h; first | exact ⟨h.2, h.1.1, h.1.2⟩ | exact ⟨⟨h.2.1, h.2.2⟩, h.1⟩)
+  | command c =>
+    unfold ObjOk ByteOrderOk fillByteOrder
+    by_cases hb : c.byteOrder.isNone = true <;>
+      simp only [hb, if_true, if_false, BoolObjOk, normObj, RangesObjOk, setOk_iff] <;>
+      constructor <;>
+      (intro h; first
+        | exact ⟨h.2.2, ⟨h.1.1, h.2.1.1⟩, h.1.2, h.2.1.2⟩
+        | exact ⟨⟨h.2.1.1, h.2.2.1⟩, ⟨h.2.1.2, h.2.2.2⟩, h.1⟩)
+  | block h os => simp [ObjOk, ByteOrderOk, fillByteOrder, BoolObjOk, normObj, RangesObjOk]
+  | buffer b => simp [ObjOk, ByteOrderOk, fillByteOrder, BoolObjOk, normObj, RangesObjOk]
+  | ref r => simp [ObjOk, ByteOrderOk, fillByteOrder, BoolObjOk, normObj, RangesObjOk]
+
+/-- **C11, acceptance.** For every device tree, the three layout passes accept it if and only if
+    every register and command of the tree (at any depth) is well formed in the property's sense. -/
+theorem layout_accept_iff (d : Device) : isOk (layoutPasses d) ↔ WellFormedLayout d := by
+  unfold WellFormedLayout layoutPasses
+  let g := d.config.defaultByteOrder
+  rw [allLeaves_congr _ _ (obj_accept_iff g) d.objects, allLeaves_and, allLeaves_and]
+  rw [← allLeaves_treeMap BoolObjOk (fillByteOrder g) (fillByteOrder_leaf g)]
+  rw [← allLeaves_treeMap (fun x => RangesObjOk (normObj x)) (fillByteOrder g) (fillByteOrder_leaf g)]
+  rw [← allLeaves_treeMap RangesObjOk normObj normObj_leaf]
+  -- pass 5
+  have h5 := mapObjs_pure_isOk (byteOrderObj g) d.objects
+  rw [allLeaves_congr _ _ (fun o => (byteOrderObj_spec g o).1)] at h5
+  unfold byteOrderSpecified mapObjects
+  cases hv5 : mapObjs (fun h => .ok h) (byteOrderObj g) d.objects with
+  | error e =>
+    constructor
+    · intro ⟨a, ha⟩; cases ha
+    · intro ⟨hbo, _⟩
+      obtain ⟨a, ha⟩ := h5.2 hbo
+      rw [hv5] at ha; cases ha
+  | ok os1 =>
+    have e1 : os1 = treeMap (fillByteOrder g) d.objects :=
+      mapObjs_pure_eq_treeMap _ _ (fun o => (byteOrderObj_spec g o).2) _ _ hv5
+    have hbo := h5.1 ⟨os1, hv5⟩
+    simp only
+    -- pass 7
+    have h7 := mapObjs_pure_isOk boolObj os1
+    rw [allLeaves_congr _ _ (fun o => (boolObj_spec o).1)] at h7
+    unfold boolFieldsChecked mapObjects
+    simp only
+    cases hv7 : mapObjs (fun h => .ok h) boolObj os1 with
+    | error e =>
+      constructor
+      · intro ⟨a, ha⟩; cases ha
+      · intro ⟨_, hb, _⟩
+        obtain ⟨a, ha⟩ := h7.2 (e1 ▸ hb)
+        rw [hv7] at ha; cases ha
+    | ok os2 =>
+      have e2 : os2 = treeMap normObj os1 :=
+        mapObjs_pure_eq_treeMap _ _ (fun o => (boolObj_spec o).2) _ _ hv7
+      have hb := h7.1 ⟨os2, hv7⟩
+      simp only
+      -- pass 8
+      have h8 := mapObjs_pure_isOk bitRangesObj os2
+      rw [allLeaves_congr _ _ bitRangesObj_spec] at h8
+      unfold bitRangesValidated mapObjects
+      simp only
+      cases hv8 : mapObjs (fun h => .ok h) bitRangesObj os2 with
+      | error e =>
+        constructor
+        · intro ⟨a, ha⟩; cases ha
+        · intro ⟨_, _, hr⟩
+          obtain ⟨a, ha⟩ := h8.2 (by rw [e2, e1]; exact hr)
+          rw [hv8] at ha; cases ha
+      | ok os3 =>
+        have hr := h8.1 ⟨os3, hv8⟩
+        constructor
+        · intro _
+          exact ⟨hbo, e1 ▸ hb, by rw [e2, e1] at hr; exact hr⟩
+        · intro _; exact ⟨_, rfl⟩
+
+/-- **C11, no panic.** The layout passes only ever stop with a reported error of one of the layout
+    kinds; the model has no panic exit in them at all (the arithmetic of `bool_fields_checked`,
+    `end += 1`, cannot overflow for sizes in the property's range). -/
+theorem layout_rejection_is_an_error (d : Device) (s : Stop) (h : layoutPasses d = .error s) :
+    ∃ e, s = .error e := by
+  unfold layoutPasses at h
+  have o5 := mapObjs_onlyErrors (byteOrderObj d.config.defaultByteOrder)
+    (byteOrderObj_onlyErrors d.config.defaultByteOrder) d.objects
+  unfold byteOrderSpecified mapObjects at h
+  cases hv5 : mapObjs (fun h => .ok h) (byteOrderObj d.config.defaultByteOrder) d.objects with
+  | error e =>
+    rw [hv5] at h
+    exact o5 s (by rw [hv5]; exact congrArg _ (Except.error.inj h))
+  | ok os1 =>
+    rw [hv5] at h
+    simp only at h
+    have o7 := mapObjs_onlyErrors boolObj boolObj_onlyErrors os1
+    unfold boolFieldsChecked mapObjects at h
+    simp only at h
+    cases hv7 : mapObjs (fun h => .ok h) boolObj os1 with
+    | error e =>
+      rw [hv7] at h
+      exact o7 s (by rw [hv7]; exact congrArg _ (Except.error.inj h))
+    | ok os2 =>
+      rw [hv7] at h
+      simp only at h
+      have o8 := mapObjs_onlyErrors bitRangesObj bitRangesObj_onlyErrors os2
+      unfold bitRangesValidated mapObjects at h
+      simp only at h
+      cases hv8 : mapObjs (fun h => .ok h) bitRangesObj os2 with
+      | error e =>
+        rw [hv8] at h
+        exact o8 s (by rw [hv8]; exact congrArg _ (Except.error.inj h))
+      | ok os3 => rw [hv8] at h; cases h
+
+/-- **C11, the rejection names the object.** Every error the range validation can produce carries
+    the name it was given (`Name`, or `Name (in)` / `Name (out)` for the two field sets of a
+    command) as its first quoted name. -/
+theorem validateLen_error_names (size : Nat) (n : String) (e : Err) : ∀ (fs : List Field),
+    validateLen size n fs = .error (.error e) → e.names.head? = some n
+  | [] => by intro h; unfold validateLen at h; cases h
+  | f :: fs => by
+    intro h
+    unfold validateLen at h
+    split at h
+    · cases h; rfl
+    · split at h
+      · cases h; rfl
+      · exact validateLen_error_names size n e fs h
+
+theorem validateOverlap_error_names (n : String) (e : Err) : ∀ (fs : List Field),
+    validateOverlap n fs = .error (.error e) → e.names.head? = some n
+  | [] => by intro h; unfold validateOverlap at h; cases h
+  | f :: fs => by
+    intro h
+    unfold validateOverlap at h
+    split at h
+    · cases h; rfl
+    · exact validateOverlap_error_names n e fs h
+
+theorem layout_error_names_object (allow : Bool) (size : Nat) (n : String) (fs : List Field) (e : Err)
+    (h : validateSet allow size n fs = .error (.error e)) : e.names.head? = some n := by
+  unfold validateSet at h
+  cases hl : validateLen size n fs with
+  | error s =>
+    rw [hl] at h
+    have : s = .error e := Except.error.inj h
+    subst this
+    exact validateLen_error_names size n e fs hl
+  | ok u =>
+    rw [hl] at h
+    simp only at h
+    cases allow
+    · simp only [Bool.false_eq_true, if_false] at h
+      exact validateOverlap_error_names n e fs h
+    · simp only [if_true] at h; cases h
+
+/-! ### Non-vacuity -/
+
+def sampleRegister : Register :=
+  { name := "R", access := .rw, byteOrder := some .le, bitOrder := .lsb0, allowBitOverlap := false,
+    allowAddressOverlap := false, address := 0, sizeBits := 16, reset := none, repeat_ := none,
+    fields := [{ name := "a", access := .rw, base := .uint, start := 0, stop := 5 },
+               { name := "b", access := .rw, base := .bool, start := 5, stop := 5 }] }
+
+/-- a concrete well-formed device: both sides of the iff are inhabited -/
+example : WellFormedLayout { config := {}, objects := [.register sampleRegister] } :=
+  (layout_accept_iff _).1 ⟨_, rfl⟩
+
 end DDV.Props.C11
